@@ -469,12 +469,18 @@ func runMirror(c *Ctx) {
 				short+" never updates or deletes an existing edge entry", ternary(!innerTouch, "no inner-map mutation", "inner-map mutation or delete present"))
 			pairOK := outerOut != nil && outerIn != nil && outerOut.block == outerIn.block && outerOut.key == outerIn.key
 			guarded := false
+			// one ensure-step called once per adjacency map (`edgeSet(g.adjacencyOut, h); edgeSet(g.adjacencyIn, h)`): two
+			// executions of the step make two maps, each under the step's own "no entry yet" test of its own table
+			twoCalls := outerOut != nil && outerIn != nil && outerOut.orig != nil && outerIn.orig != nil && outerOut.in != outerIn.in
 			if pairOK {
 				_, isMk1 := outerOut.val.(*ssa.MakeMap)
 				_, isMk2 := outerIn.val.(*ssa.MakeMap)
-				pairOK = isMk1 && isMk2 && outerOut.val != outerIn.val
+				pairOK = isMk1 && isMk2 && (outerOut.val != outerIn.val || twoCalls)
 				// guarded by "no entry yet" for this key (inside the helper the creation was inlined from, if any)
 				guarded = c.absentGuard(gf, outerOut)
+				if twoCalls {
+					guarded = guarded && c.absentGuard(gf, outerIn) && postDominatesEntry(f, outerOut.block) && postDominatesEntry(f, outerIn.block)
+				}
 			}
 			c.R.Add("MIRROR-ADD", short+"|paired-creation", name, p.Pos(f.Pos()), pairOK && guarded,
 				"both adjacency maps get a fresh, distinct inner map for the key, only when the key has none yet (existing edges are kept)",
@@ -495,6 +501,15 @@ func runMirror(c *Ctx) {
 						// `if g.ensure(h) { g.hash[h] = v }`: the store is guarded by the helper call that created the entries
 						// reporting that it did so
 						sameBlock = c.guardedByCreation(gf, hashUp, outerOut)
+					}
+					if !sameBlock && outerOut != nil && twoCalls {
+						// the store sits under its own "no adjacency entry for this key yet" test, evaluated before the
+						// ensure-steps run (they create the entry under the very same condition)
+						hm := *hashUp
+						hm.key = outerOut.key
+						if c.absentGuard(gf, &hm) && core.CanFollow(hashUp.in, outerOut.in) && !core.CanFollow(outerOut.in, hashUp.in) {
+							sameBlock = true
+						}
 					}
 					c.R.Add("MIRROR-ADD", short+"|hash-keep", name, p.InstrPos(hashUp.in), stored && sameBlock,
 						"Add stores the hash entry only together with the creation of the adjacency entries (an existing vertex is kept)", fmt.Sprintf("stores-param=%v with-creation=%v", stored, sameBlock))
@@ -605,6 +620,21 @@ func runMirror(c *Ctx) {
 							src := c.classifyMap(gf, hc.Common().Args[0])
 							if src.level == "inner" && src.field == m.ref.field && core.Root(src.base) == recv && src.key == m.key {
 								freshInner, srcOK = true, true
+							}
+							// two-step form: the copy's outer table is maps.Clone of the receiver's (same keys, shared inner
+							// maps), and every inner map is then replaced, in place and under its own key, by its clone
+							if src.level == "inner" && src.field == m.ref.field && src.key == m.key && core.Root(src.base) == core.Root(m.ref.base) && core.Root(src.base) != recv {
+								fieldName := gf.out
+								if m.ref.field == "in" {
+									fieldName = gf.in
+								}
+								if oc, ok := c.graphLiteralFields(f)[fieldName].(*ssa.Call); ok && len(oc.Common().Args) == 1 {
+									if pk2, fn2 := core.StdCallee(oc.Common().StaticCallee()); pk2 == "maps" && fn2 == "Clone" {
+										if of, ok := core.AsFieldLoad(oc.Common().Args[0]); ok && of.Owner == "graph.Graph" && of.Field == fieldName && core.Strip(of.Base) == recv {
+											freshInner, srcOK = true, true
+										}
+									}
+								}
 							}
 						}
 					}
@@ -726,6 +756,33 @@ func runMirror(c *Ctx) {
 			})
 			c.R.Add("COPY", "Copy|no-table-shared", name, p.Pos(f.Pos()), shared == "",
 				"no table of the copy (adjacency maps, vertex table) is a map taken over from another graph", ternary(shared == "", "every table is built for the copy", shared))
+			// every table of the copy is allocated, also when the receiver's is still nil (a zero-value graph that was
+			// never written): the copy's init() runs (or the receiver's, before its tables are cloned), or the tables are
+			// made here — maps.Clone(nil) is nil, and a view of a copy with nil tables is detached from it for good
+			{
+				initCalled := false
+				var initFn *ssa.Function
+				if m := p.Method(p.Graph, "Graph", "init"); m != nil {
+					initFn = m
+				}
+				for _, ci := range p.RegionCalls(f) {
+					if initFn != nil && ci.Common().StaticCallee() == initFn {
+						initCalled = true
+					}
+				}
+				cloned := ""
+				p.RegionInstrs(f, func(in ssa.Instruction) {
+					if cl, ok := in.(*ssa.Call); ok && len(cl.Common().Args) == 1 {
+						if pk, fn := core.StdCallee(cl.Common().StaticCallee()); pk == "maps" && fn == "Clone" {
+							if fr, ok := core.AsFieldLoad(cl.Common().Args[0]); ok && fr.Owner == "graph.Graph" && core.Strip(fr.Base) == recv {
+								cloned = fr.Field
+							}
+						}
+					}
+				})
+				c.R.Add("COPY", "Copy|tables-allocated", name, p.Pos(f.Pos()), cloned == "" || initCalled,
+					"the copy owns allocated tables even when the receiver's are still nil", ternary(cloned == "", "tables are made here", ternary(initCalled, "init() runs in Copy", "table "+cloned+" is maps.Clone of the receiver's, which stays nil for a graph that was never written, and init() is not called")))
+			}
 			// returns the fresh graph
 			for _, r := range core.Returns(f) {
 				ok := len(r.Results) == 1 && p.FreshIn(r.Results[0]) && core.Root(r.Results[0]) != recv
@@ -749,6 +806,34 @@ func runMirror(c *Ctx) {
 			c.R.Add("REVERSE", "Reverse|in", name, p.Pos(f.Pos()), got[gf.in] == gf.out, "reversed view's in-adjacency is the receiver's out-adjacency (shared, not copied)", "in <- "+got[gf.in])
 			c.R.Add("REVERSE", "Reverse|hash", name, p.Pos(f.Pos()), got[gf.hash] == gf.hash, "reversed view shares the vertex table", "hash <- "+got[gf.hash])
 			c.R.Add("REVERSE", "Reverse|pure", name, p.Pos(f.Pos()), len(muts) == 0, "Reverse mutates no map", fmt.Sprintf("%d map mutations", len(muts)))
+			// the view is built by this very call from the maps the receiver has now: a view kept from an earlier call
+			// (memoised in a field of the receiver) still holds the maps the graph had then — nil ones, if the graph was
+			// empty — and Reverse itself leaves the receiver untouched
+			{
+				stale := ""
+				for _, r := range core.Returns(f) {
+					if len(r.Results) != 1 || !p.FreshIn(r.Results[0]) || core.Root(r.Results[0]) == recv {
+						stale = "returns " + core.Path(r.Results[0]) + " at " + p.InstrPos(r) + ", which is not a graph built by this call"
+					}
+				}
+				core.Instrs(f, func(in ssa.Instruction) {
+					switch x := in.(type) {
+					case *ssa.Store:
+						if core.Root(x.Addr) == recv {
+							stale = "stores into the receiver at " + p.InstrPos(in)
+						}
+					case ssa.CallInstruction:
+						// a method of a library type called on (the address of) a field of the receiver: atomic.Pointer.Store, sync.Once.Do, …
+						if cal := x.Common().StaticCallee(); cal != nil && !p.InTarget(cal) && len(x.Common().Args) > 0 {
+							if fa, ok := x.Common().Args[0].(*ssa.FieldAddr); ok && core.Root(fa) == recv {
+								stale = "calls " + core.ShortCallee(core.CalleeName(x.Common())) + " on a field of the receiver at " + p.InstrPos(in)
+							}
+						}
+					}
+				})
+				c.R.Add("REVERSE", "Reverse|fresh-view-per-call", name, p.Pos(f.Pos()), stale == "",
+					"every call of Reverse builds its view anew from the receiver's current maps and keeps nothing in the receiver", ternary(stale == "", "fresh view, receiver untouched", stale))
+			}
 		}
 
 		// ---- PURITY: everything that is not a mutator performs no update on a non-fresh graph
